@@ -117,9 +117,20 @@ func r18a(c *an.Ctx) {
 	if bh := c.MustFn("core/task", "schedulerState.buildEventHandler"); bh != nil {
 		c.Subject()
 		ok := false
-		for _, ci := range an.CallsSuffix(bh, "scheduler/controller.TrackSubscription") {
-			if _, isP := ci.Common().Args[0].(*ssa.Parameter); isP {
-				ok = true
+		// in the builder itself, or in a same-package helper it calls to assemble the SUBSCRIBED chain
+		fns := []*ssa.Function{bh}
+		an.Instrs(bh, func(in ssa.Instruction) {
+			if cl, isCall := in.(*ssa.Call); isCall {
+				if cal := cl.Call.StaticCallee(); cal != nil && cal.Pkg == bh.Pkg && cal.Blocks != nil {
+					fns = append(fns, cal)
+				}
+			}
+		})
+		for _, f := range fns {
+			for _, ci := range an.CallsSuffix(f, "scheduler/controller.TrackSubscription") {
+				if _, isP := ci.Common().Args[0].(*ssa.Parameter); isP {
+					ok = true
+				}
 			}
 		}
 		c.Ob("core/task.(*schedulerState).buildEventHandler|track-subscription", bh.Pos(), ok, "the SUBSCRIBED chain must store the id Mesos assigned (TrackSubscription on the id store)")
@@ -175,23 +186,36 @@ func r18b(c *an.Ctx) {
 			return
 		}
 		var cands []*ssa.Function
-		for _, l := range an.BackSlice(mu.Value, an.SliceOpts{LeafCall: func(n string, cl *ssa.Call) bool {
-			cal := cl.Call.StaticCallee()
-			return cal != nil && cal.Pkg == bh.Pkg && len(cal.AnonFuncs) > 0
-		}}) {
-			switch l.Kind {
-			case "call":
-				if cl, isCall := l.Val.(*ssa.Call); isCall && cl.Call.StaticCallee() != nil {
-					cands = append(cands, cl.Call.StaticCallee().AnonFuncs...)
-				}
-			case "func":
-				if f := an.ClosureFn(l.Val); f != nil {
-					cands = append(cands, f)
-				} else if f, isF := l.Val.(*ssa.Function); isF {
-					cands = append(cands, f)
+		var collect func(v ssa.Value, depth int)
+		collect = func(v ssa.Value, depth int) {
+			for _, l := range an.BackSlice(v, an.SliceOpts{LeafCall: func(n string, cl *ssa.Call) bool {
+				cal := cl.Call.StaticCallee()
+				return cal != nil && cal.Pkg == bh.Pkg && cal.Blocks != nil
+			}}) {
+				switch l.Kind {
+				case "call":
+					if cl, isCall := l.Val.(*ssa.Call); isCall && cl.Call.StaticCallee() != nil {
+						cal := cl.Call.StaticCallee()
+						cands = append(cands, cal.AnonFuncs...)
+						// a helper that assembles (part of) the chain: what it returns
+						if depth < 2 {
+							for _, r := range an.Returns(cal) {
+								for _, res := range r.Results {
+									collect(res, depth+1)
+								}
+							}
+						}
+					}
+				case "func":
+					if f := an.ClosureFn(l.Val); f != nil {
+						cands = append(cands, f)
+					} else if f, isF := l.Val.(*ssa.Function); isF {
+						cands = append(cands, f)
+					}
 				}
 			}
 		}
+		collect(mu.Value, 0)
 		for _, f := range cands {
 			if f.Synthetic != "" && f.Blocks != nil {
 				// bound method wrapper: look at the method it forwards to
